@@ -23,6 +23,7 @@ def _record(res: UnitResult, pid: str, name: str, params: Any, c: D.Ctl, mode: s
     res.count("preemptive_switches", c.preemptions)
     res.count("context_switches", c.switches)
     res.count("clock_advances", c.clock_advances)
+    res.note("steps_per_run_below", "1e%d" % len(str(c.steps)))
     if c.stalls:
         res.count("virtual_stalls", c.stalls)
     for site, n in c.switch_sites.items():
